@@ -23,7 +23,6 @@ import (
 	"encoding/hex"
 	"errors"
 	"io"
-	"strings"
 
 	"github.com/btcsuite/btcd/btcec/v2"
 	"github.com/btcsuite/btcd/btcec/v2/ecdsa"
@@ -529,19 +528,22 @@ func (p *Pset) verifyScriptForPubKey(
 
 	pkHash := payment.Hash160(pubKey)
 
-	scriptAsm, err := txscript.DisasmString(script)
-	if err != nil {
+	// the key occurs in the script when one of its data pushes is the key
+	// (compressed) or its HASH160; a textual search of the disassembly would
+	// also match inside a longer push or at an odd nibble offset
+	if _, err := txscript.DisasmString(script); err != nil {
 		return false, err
 	}
-
-	if strings.Contains(
-		scriptAsm,
-		hex.EncodeToString(pk.SerializeCompressed()),
-	) || strings.Contains(
-		scriptAsm,
-		hex.EncodeToString(pkHash),
-	) {
-		return true, nil
+	compressed := pk.SerializeCompressed()
+	tokenizer := txscript.MakeScriptTokenizer(0, script)
+	for tokenizer.Next() {
+		data := tokenizer.Data()
+		if data == nil {
+			continue
+		}
+		if bytes.Equal(data, compressed) || bytes.Equal(data, pkHash) {
+			return true, nil
+		}
 	}
 
 	return false, nil
